@@ -9,7 +9,7 @@ ids = {f["id"]: i for i, f in enumerate(d["findings"])}
 n = 0
 for fn in sorted(glob.glob(os.path.join(here, "bounded", "c*_known.json"))):
     for e in json.load(open(fn)):
-        assert e["match"]["kind"] == "bounded" and ("key_re" in e["match"] or "key" in e["match"]), e
+        assert e["match"]["kind"] in ("bounded", "obligation", "ground") and ("key_re" in e["match"] or "key" in e["match"]), e
         if "key_re" in e["match"]:
             re.compile(e["match"]["key_re"])
         if e["id"] in ids:
